@@ -15,6 +15,7 @@
         user / result:  attrs = << the type's own AttributeExpr >>, name = TypeName
         desc  0 = "" | k = "d<k>"            req  Validation.Required
         val   0 = none | k = MinLength k     meta values of the meta key "doc:k" (v<i>)
+        enum  Validation.Values (e<i>)
         tags  [name, type]: values of struct:field:name / struct:field:type (0 = absent)
         x     number of meta keys / validation fields outside this vocabulary (always 0)
 
@@ -28,10 +29,12 @@
    table of expr.Hash.  ModelHash is the *design* of the algorithm, structured
    like expr/hasher.go; HashIffEqual says the design implements the table.
 
-   The heap form of a graph (for Dup and mutations) keeps meta values in
-   buffers [cap, cells] the way Go slices do: attr.meta = [b, l] (buffer, length).
-   That is what makes "append on a copy writes into the original's spare
-   capacity" expressible (deviation dup.meta_values_shared). *)
+   The heap form of a graph (for Dup and mutations) keeps the slice-valued
+   parts of an attribute (meta values, required names, enum values) the way Go
+   does: a header [b, l, c] into backing arrays.  That is what makes "append on
+   a copy writes into the original's spare capacity" (dup.meta_values_shared)
+   and "an element written through the copy shows in the original"
+   (dup.*_backing_array_shared, dup.enum_values_shared) expressible. *)
 EXTENDS Integers, Sequences, FiniteSets, TLC
 
 CONSTANTS Deviations,   \* named departures of the code from the design
@@ -46,7 +49,10 @@ CONSTANTS Deviations,   \* named departures of the code from the design
           Script        \* "free": any steps; "paired": any first step, then the same append-like change at the same
                         \* place on the other side; "copyfirst": like paired, first step on the copy
 
-AllDeviations == {"hash.union_order_dependent", "hash.meta_iteration_order", "dup.meta_values_shared"}
+AllDeviations == {"hash.union_order_dependent", "hash.meta_iteration_order", "dup.meta_values_shared",
+                  "dup.enum_values_shared",
+                  \* hypothetical (vacuity guards of the in-place write steps):
+                  "dup.meta_backing_array_shared", "dup.required_backing_array_shared"}
 ASSUME Deviations \subseteq AllDeviations
 
 Range(s) == {s[i] : i \in 1..Len(s)}
@@ -59,7 +65,7 @@ Rank(s) == RankMap[s]
 P(p) == [p |-> p, n |-> 0]
 R(i) == [p |-> "-", n |-> i]
 NoTags == [name |-> 0, type |-> 0]
-A(nm, r) == [name |-> nm, ref |-> r, desc |-> 0, req |-> <<>>, val |-> 0, meta |-> <<>>, tags |-> NoTags, x |-> 0]
+A(nm, r) == [name |-> nm, ref |-> r, desc |-> 0, req |-> <<>>, val |-> 0, enum |-> <<>>, meta |-> <<>>, tags |-> NoTags, x |-> 0]
 Nd(k, nm, as) == [kind |-> k, name |-> nm, attrs |-> as]
 IsUser(nd) == nd.kind \in {"user", "result"}
 IsNamed(nd) == nd.kind \in {"object", "union"}
@@ -300,37 +306,73 @@ WithTags(g, d) ==
      ELSE g.nodes[i]]]
 
 ---------------------------------------------------------------------------
-(* Heap form, Dup, mutations, canonical projection. *)
-\* dup mode decoration: d meta values and d required names on every attribute
+(* Heap form, Dup, mutations, canonical projection.
+
+   In the heap form the three slice-valued parts of an attribute - the values of meta "doc:k",
+   Validation.Required, Validation.Values (the enum) - are Go slices: a header [b, l, c] (backing
+   array, length, capacity; b = 0 is the nil slice) into hp.bufs, where bufs[b] holds the cells
+   written so far.  Append writes in place while l < c and moves to a new array otherwise; an
+   element assignment or an in-place reordering always writes in place.  Two headers with the
+   same b alias each other: that is what the dup.* deviations are about.  Cells are numbers
+   (required names through ReqTable). *)
+\* dup mode decoration: d meta values, d required names, d enum values (and a name tag) on every attribute
 WithMeta(g, d) ==
   [g EXCEPT !.nodes = [i \in 1..Len(g.nodes) |-> [g.nodes[i] EXCEPT !.attrs =
-     [k \in 1..Len(@) |-> [@[k] EXCEPT !.meta = [j \in 1..d |-> j], !.req = [j \in 1..d |-> AttrNames[j]]]]]]]
+     [k \in 1..Len(@) |-> [@[k] EXCEPT !.meta = [j \in 1..d |-> j], !.req = [j \in 1..d |-> AttrNames[j]],
+                                       !.enum = [j \in 1..d |-> j], !.tags.name = IF d > 0 THEN 1 ELSE 0]]]]]
 
-\* append growth of a Go []string built by one-value appends: capacity 1, 2, 4, 8
+ReqTable == AttrNames \o <<"o1", "c1", "o2", "c2", "o3", "c3">>
+ReqCode(s) == IF s \in Range(ReqTable) THEN CHOOSE i \in 1..Len(ReqTable) : ReqTable[i] = s ELSE 0
+ReqName(i) == IF i \in 1..Len(ReqTable) THEN ReqTable[i] ELSE "?"
+
+\* append growth of a Go slice built by one-value appends: capacity 1, 2, 4, 8
 GrowCap(c) == IF c = 0 THEN 1 ELSE 2 * c
 RECURSIVE CapFor(_, _)
 CapFor(l, c) == IF c >= l THEN c ELSE CapFor(l, GrowCap(c))
 
-\* canonical graph -> heap: one private buffer per non-empty meta value
+NilS == [b |-> 0, l |-> 0, c |-> 0]
+SVal(bufs, h) == IF h.b = 0 THEN <<>> ELSE SubSeq(bufs[h.b], 1, h.l)
+\* a new array holding vals, capacity cap (no array for no values)
+SNew(bufs, vals, cap) == IF vals = <<>> THEN [bufs |-> bufs, h |-> NilS]
+                         ELSE [bufs |-> Append(bufs, vals), h |-> [b |-> Len(bufs) + 1, l |-> Len(vals), c |-> cap]]
+SAppend(bufs, h, v) ==
+  IF h.l < h.c
+  THEN [bufs |-> [bufs EXCEPT ![h.b] = IF Len(@) > h.l THEN [@ EXCEPT ![h.l + 1] = v] ELSE Append(@, v)],
+        h |-> [h EXCEPT !.l = @ + 1]]
+  ELSE SNew(bufs, Append(SVal(bufs, h), v), GrowCap(h.c))
+SSet(bufs, h, i, v) == [bufs EXCEPT ![h.b][i] = v]
+SReverse(bufs, h) == [bufs EXCEPT ![h.b] = [k \in 1..Len(@) |-> IF k <= h.l THEN @[h.l + 1 - k] ELSE @[k]]]
+\* how a copy gets its slice: "fresh" = own array, "alias" = the same header, "capped" = the same array
+\* with the capacity cut down to the length (appends move away, element writes do not)
+SCopy(bufs, h, how) ==
+  IF h.b = 0 \/ how = "alias" THEN [bufs |-> bufs, h |-> h]
+  ELSE IF how = "capped" THEN [bufs |-> bufs, h |-> [h EXCEPT !.c = h.l]]
+  ELSE SNew(bufs, SVal(bufs, h), h.l)
+
+\* canonical graph -> heap.  Meta values and required names accumulate one append at a time (repeated
+\* Meta() / Required() calls of a design), the enum is one literal.
 RECURSIVE LoadNodes(_, _, _, _, _)
 LoadNodes(nodes, i, k, outN, bufs) ==
   IF i > Len(nodes) THEN [nodes |-> outN, bufs |-> bufs]
   ELSE IF k > Len(nodes[i].attrs) THEN LoadNodes(nodes, i + 1, 1, outN, bufs)
   ELSE LET a == nodes[i].attrs[k]
-           has == Len(a.meta) > 0
-           nb == IF has THEN Append(bufs, [cap |-> CapFor(Len(a.meta), 0), cells |-> a.meta]) ELSE bufs
-           na == [a EXCEPT !.meta = IF has THEN [b |-> Len(nb), l |-> Len(a.meta)] ELSE [b |-> 0, l |-> 0]]
-       IN LoadNodes(nodes, i, k + 1, [outN EXCEPT ![i].attrs[k] = na], nb)
+           m == SNew(bufs, a.meta, CapFor(Len(a.meta), 0))
+           r == SNew(m.bufs, [j \in 1..Len(a.req) |-> ReqCode(a.req[j])], CapFor(Len(a.req), 0))
+           e == SNew(r.bufs, a.enum, Len(a.enum))
+           na == [a EXCEPT !.meta = m.h, !.req = r.h, !.enum = e.h]
+       IN LoadNodes(nodes, i, k + 1, [outN EXCEPT ![i].attrs[k] = na], e.bufs)
 Load(g) == LoadNodes(g.nodes, 1, 1, g.nodes, <<>>)
 
-MetaVal(hp, m) == IF m.b = 0 THEN <<>> ELSE SubSeq(hp.bufs[m.b].cells, 1, m.l)
+CanonAttr(hp, a, ref) ==
+  [a EXCEPT !.ref = ref, !.meta = SVal(hp.bufs, @), !.enum = SVal(hp.bufs, @),
+            !.req = [j \in 1..a.req.l |-> ReqName(hp.bufs[a.req.b][j])]]
 Canon(hp, root) ==
   LET ord == Ord(hp.nodes, root, <<>>)
       pos(id) == CHOOSE i \in 1..Len(ord) : ord[i] = id
       ren(r) == IF r.n = 0 THEN r ELSE R(pos(r.n))
   IN [root |-> ren(root),
       nodes |-> [i \in 1..Len(ord) |->
-                   [hp.nodes[ord[i]] EXCEPT !.attrs = [k \in 1..Len(@) |-> [@[k] EXCEPT !.ref = ren(@), !.meta = MetaVal(hp, @)]]]]]
+                   [hp.nodes[ord[i]] EXCEPT !.attrs = [k \in 1..Len(@) |-> CanonAttr(hp, @[k], ren(@[k].ref))]]]]
 \* the same renumbering for a canonical-form graph after a transformation (drops unreachable nodes)
 CanonG(g) ==
   LET ord == Ord(g.nodes, g.root, <<>>)
@@ -338,6 +380,12 @@ CanonG(g) ==
       ren(r) == IF r.n = 0 THEN r ELSE R(pos(r.n))
   IN [root |-> ren(g.root),
       nodes |-> [i \in 1..Len(ord) |-> [g.nodes[ord[i]] EXCEPT !.attrs = [k \in 1..Len(@) |-> [@[k] EXCEPT !.ref = ren(@)]]]]]
+
+\* how expr.Dup treats the three slices (DupAttribute -> MetaExpr.Dup, ValidationExpr.Dup)
+MetaHow(devs) == IF "dup.meta_values_shared" \in devs THEN "alias"
+                 ELSE IF "dup.meta_backing_array_shared" \in devs THEN "capped" ELSE "fresh"
+ReqHow(devs)  == IF "dup.required_backing_array_shared" \in devs THEN "capped" ELSE "fresh"
+EnumHow(devs) == IF "dup.enum_values_shared" \in devs THEN "alias" ELSE "fresh"
 
 \* expr.Dup: fresh nodes for everything reachable, memo keyed by user type
 RECURSIVE DupR(_, _, _), DupAs(_, _, _, _, _)
@@ -354,35 +402,27 @@ DupAs(st, as, i, out, devs) ==
   IF i > Len(as) THEN [st |-> st, attrs |-> out]
   ELSE LET a == as[i]
            d == DupR(st, a.ref, devs)
-           share == "dup.meta_values_shared" \in devs \/ a.meta.b = 0
-           st2 == IF share THEN d.st
-                  ELSE [d.st EXCEPT !.bufs = Append(@, [cap |-> a.meta.l, cells |-> SubSeq(@[a.meta.b].cells, 1, a.meta.l)])]
-           na == [a EXCEPT !.ref = d.ref, !.meta = IF share THEN @ ELSE [b |-> Len(st2.bufs), l |-> a.meta.l]]
-       IN DupAs(st2, as, i + 1, Append(out, na), devs)
+           m == SCopy(d.st.bufs, a.meta, MetaHow(devs))
+           r == SCopy(m.bufs, a.req, ReqHow(devs))
+           e == SCopy(r.bufs, a.enum, EnumHow(devs))
+           na == [a EXCEPT !.ref = d.ref, !.meta = m.h, !.req = r.h, !.enum = e.h]
+       IN DupAs([d.st EXCEPT !.bufs = e.bufs], as, i + 1, Append(out, na), devs)
 DupHeap(hp, root, devs) ==
   LET d == DupR([nodes |-> hp.nodes, bufs |-> hp.bufs, uts |-> <<>>], root, devs)
   IN [hp |-> [nodes |-> d.st.nodes, bufs |-> d.st.bufs], ref |-> d.ref]
 
-\* attr.AddMeta("doc:k", v): Go append
-AddMetaVal(hp, m, v) ==
-  IF m.b = 0 THEN [bufs |-> Append(hp.bufs, [cap |-> 1, cells |-> <<v>>]), m |-> [b |-> Len(hp.bufs) + 1, l |-> 1]]
-  ELSE LET bf == hp.bufs[m.b] IN
-    IF m.l < bf.cap
-    THEN [bufs |-> [hp.bufs EXCEPT ![m.b].cells = IF Len(@) > m.l THEN [@ EXCEPT ![m.l + 1] = v] ELSE Append(@, v)],
-          m |-> [b |-> m.b, l |-> m.l + 1]]
-    ELSE [bufs |-> Append(hp.bufs, [cap |-> GrowCap(bf.cap), cells |-> Append(SubSeq(bf.cells, 1, m.l), v)]),
-          m |-> [b |-> Len(hp.bufs) + 1, l |-> m.l + 1]]
-
-MutOps == {"set", "del", "ren", "meta", "tag", "req", "vmerge", "setattr", "rename", "type", "desc"}
+MutOps == {"set", "del", "ren", "meta", "tag", "req", "vmerge", "setattr", "rename", "type", "desc",
+           "metaset", "metarev", "tagset", "reqset", "enumset", "slot"}
 AppendOps == {"meta", "tag", "req", "vmerge"}
 Step(side, op, nd, ix) == [side |-> side, op |-> op, node |-> nd, idx |-> ix]
-AddReq(req, s) == IF s \in Range(req) THEN req ELSE Append(req, s)
-FreshAttr(nm) == [A(nm, P("string")) EXCEPT !.meta = [b |-> 0, l |-> 0]]
+FreshAttr(nm) == [A(nm, P("string")) EXCEPT !.meta = NilS, !.req = NilS, !.enum = NilS]
+Mine(side, o, c) == IF side = "orig" THEN o ELSE c      \* the two sides write different values, so aliasing shows
 
 \* the steps possible on the graph below `root` (node = preorder index within that graph)
 StepsOf(hp, root, side) ==
   LET ord == Ord(hp.nodes, root, <<>>)
       nd(i) == hp.nodes[ord[i]]
+      at(l) == nd(l[1]).attrs[l[2]]
       NN == 1..Len(ord)
       Locs == UNION {{<<i, k>> : k \in 1..Len(nd(i).attrs)} : i \in NN}
   IN {Step(side, op, l[1], l[2]) : op \in {"meta", "tag", "req", "vmerge", "type", "desc"}, l \in Locs}
@@ -391,19 +431,38 @@ StepsOf(hp, root, side) ==
      \cup {Step(side, "del", l[1], l[2]) : l \in {l \in Locs : nd(l[1]).kind = "object"}}
      \cup {Step(side, "ren", l[1], l[2]) : l \in {l \in Locs : nd(l[1]).kind = "object" /\ ~HasName(nd(l[1]), "y")}}
      \cup {Step(side, op, i, 0) : op \in {"setattr", "rename"}, i \in {i \in NN : IsUser(nd(i))}}
+     \* writes into what already exists: element assignment, in-place reordering, slot reassignment
+     \cup {Step(side, "metaset", l[1], l[2]) : l \in {l \in Locs : at(l).meta.l >= 1}}
+     \cup {Step(side, "metarev", l[1], l[2]) : l \in {l \in Locs : at(l).meta.l >= 2}}
+     \cup {Step(side, "tagset", l[1], l[2]) : l \in {l \in Locs : at(l).tags.name # 0}}
+     \cup {Step(side, "reqset", l[1], l[2]) : l \in {l \in Locs : at(l).req.l >= 1}}
+     \cup {Step(side, "enumset", l[1], l[2]) : l \in {l \in Locs : at(l).enum.l >= 1}}
+     \cup {Step(side, "slot", l[1], l[2]) : l \in {l \in Locs : IsNamed(nd(l[1]))}}
 
 ApplyStep(hp, root, s) ==
   LET id == Ord(hp.nodes, root, <<>>)[s.node]
       a == hp.nodes[id].attrs[s.idx]
+      \* Validation.AddRequired(name): append unless present
+      addReq(name) == IF ReqCode(name) \in Range(SVal(hp.bufs, a.req)) THEN [bufs |-> hp.bufs, h |-> a.req]
+                      ELSE SAppend(hp.bufs, a.req, ReqCode(name))
   IN CASE s.op = "set" /\ s.idx = 0 -> [hp EXCEPT !.nodes[id].attrs = Append(@, FreshAttr("z"))]
        [] s.op = "set" /\ s.idx > 0 -> [hp EXCEPT !.nodes[id].attrs[s.idx] = FreshAttr(a.name)]
+       [] s.op = "slot" -> [hp EXCEPT !.nodes[id].attrs[s.idx] = FreshAttr(a.name)]
        [] s.op = "del" -> [hp EXCEPT !.nodes[id].attrs = RemoveAt(@, s.idx)]
        [] s.op = "ren" -> [hp EXCEPT !.nodes[id].attrs[s.idx].name = "y"]
-       [] s.op = "meta" -> LET r == AddMetaVal(hp, a.meta, IF s.side = "orig" THEN 8 ELSE 9) IN [hp EXCEPT !.bufs = r.bufs, !.nodes[id].attrs[s.idx].meta = r.m]
+       [] s.op = "meta" -> LET r == SAppend(hp.bufs, a.meta, Mine(s.side, 8, 9))
+                           IN [hp EXCEPT !.bufs = r.bufs, !.nodes[id].attrs[s.idx].meta = r.h]
+       [] s.op = "metaset" -> [hp EXCEPT !.bufs = SSet(@, a.meta, 1, Mine(s.side, 8, 9))]
+       [] s.op = "metarev" -> [hp EXCEPT !.bufs = SReverse(@, a.meta)]
        [] s.op = "tag" -> [hp EXCEPT !.nodes[id].attrs[s.idx].tags.name = 2]
-       [] s.op = "req" -> [hp EXCEPT !.nodes[id].attrs[s.idx].req = AddReq(@, IF s.side = "orig" THEN "o1" ELSE "c1")]
-       [] s.op = "vmerge" -> [hp EXCEPT !.nodes[id].attrs[s.idx].req = AddReq(@, IF s.side = "orig" THEN "o2" ELSE "c2"),
-                                        !.nodes[id].attrs[s.idx].val = IF @ = 0 \/ @ > 1 THEN 1 ELSE @]
+       [] s.op = "tagset" -> [hp EXCEPT !.nodes[id].attrs[s.idx].tags.name = 3]
+       [] s.op = "req" -> LET r == addReq(Mine(s.side, "o1", "c1"))
+                          IN [hp EXCEPT !.bufs = r.bufs, !.nodes[id].attrs[s.idx].req = r.h]
+       [] s.op = "reqset" -> [hp EXCEPT !.bufs = SSet(@, a.req, 1, ReqCode(Mine(s.side, "o3", "c3")))]
+       [] s.op = "enumset" -> [hp EXCEPT !.bufs = SSet(@, a.enum, 1, Mine(s.side, 8, 9))]
+       [] s.op = "vmerge" -> LET r == addReq(Mine(s.side, "o2", "c2"))
+                             IN [hp EXCEPT !.bufs = r.bufs, !.nodes[id].attrs[s.idx].req = r.h,
+                                           !.nodes[id].attrs[s.idx].val = IF @ = 0 \/ @ > 1 THEN 1 ELSE @]
        [] s.op = "setattr" -> [hp EXCEPT !.nodes[id].attrs = <<FreshAttr("")>>]
        [] s.op = "rename" -> [hp EXCEPT !.nodes[id].name = "Z"]
        [] s.op = "type" -> [hp EXCEPT !.nodes[id].attrs[s.idx].ref = P("int")]
